@@ -431,6 +431,12 @@ func (m *Mutate) valuesToCellblocks() ([]byte, int32, uint32) {
 	var cbsLen int
 	var count int
 	for family, v := range m.values {
+		if v == nil && m.mutationType != pb.MutationProto_DELETE {
+			// only a delete turns a nil qualifier map into one (whole family)
+			// cell; counting one here for other mutations made the length
+			// check below panic, while the protobuf form sends no cell
+			continue
+		}
 		if v == nil {
 			v = emptyQualifier
 		}
